@@ -103,7 +103,7 @@ prop("C08", "Header maps: accepted iff well-formed, and every field means what t
                   "as unprotected header and inside the protected bstr of a COSE_Encrypt0 with 1 entry in total",
          "thorough": "<= 3 entries standalone (text <= 3), 2 entries in total inside the carrier",
      },
-     outside="maps with more entries; content-type text longer than 3 bytes is ASCII only; the claim that the "
+     outside="maps with more entries; content-type text longer than 5 bytes is ASCII only; the claim that the "
              "outcome depends only on the data-model value rests on coset seeing only a ciborium Value (C13)",
      assumptions=[])
 
@@ -111,7 +111,7 @@ prop("C10", "COSE_Key / COSE_KeySet: accepted iff well-formed, parameters map to
      mirsym={"jobs": _jl("c10"), "budget_s": {"quick": 900, "thorough": 3000}},
      bounds={"quick": "key maps with <= 2 entries, key_ops arrays <= 3; key maps with exactly 3 entries whose values "
                       "are integers or byte strings (wire order of parameters); key sets of <= 2 keys with 3 entries in total",
-             "thorough": "key maps <= 3 entries; key sets <= 3 keys, 4 entries in total"},
+             "thorough": "key maps <= 3 entries (text <= 2); key sets <= 3 keys, 3 entries in total"},
      outside="larger maps / sets", assumptions=[])
 
 prop("C18", "CWT claims sets and KDF contexts decode and encode per their definitions",
@@ -231,7 +231,7 @@ prop("C01", "Untrusted bytes never crash decoding or the processing that follows
              "only_classes": ("panic", "depth", "nesting", "crash"), "std_config": True},
      bounds={"quick": "all byte-level entry points (from_slice, from_tagged_slice, protected bstr) of 15 types "
                       "with the nondeterministic parser stub over inputs within: arrays of the type's arity + 1, "
-                      "nested arrays <= 3, 1 map entry in total, depth 4; follow-ups on every accepted value: "
+                      "nested arrays <= 3, 1 map entry in total, depth 4 (text <= 4 bytes of any UTF-8 in headers); follow-ups on every accepted value: "
                       "to_cbor_value, re-decode, tbs/verify/MAC/decrypt helpers with arbitrary AAD / detached "
                       "payload; nesting spine counter-signature -> protected header explored to 8 levels "
                       "symbolically and replayed natively at 2000 levels on a 2 MiB thread; spines of 1..12 "
